@@ -340,3 +340,15 @@ Example registry_example :
   is_native fl (CMethod (CPartial (CPartial (CFun 3)))) = true /\ is_native fl (CFun 4) = false /\
   adapt_func fl (CMethod (CFun 3)) = Same (CMethod (CFun 3)) /\ adapt_func fl (CFun 4) = Wrapped (CFun 4).
 Proof. vm_compute. repeat split. Qed.
+
+(* register_native(f); g = restore_func(f); h = adapt_func(g): g is a new function object without
+   the mark, so h is a wrapper around g and f still receives an internal graph *)
+Example restored_native_function_is_a_domain_function :
+  let fl := register_native (fun _ => false) (CFun 3) in
+  let g := CWrap 10 false (CFun 3) in
+  is_native fl (CFun 3) = true /\ is_native fl g = false /\ is_native fl (CPartial g) = false /\
+  adapt_func fl g = Wrapped g /\
+  sees (session_result (is_native fl g) true 11 g) KOpt = KOpt /\ sees g KDom = KOpt /\
+  holds_session [RegOp (CFun 3)] true g false false false = true /\
+  holds_session [RegOp (CFun 3)] true g true true true = false.
+Proof. vm_compute. repeat split. Qed.
